@@ -36,3 +36,21 @@ pub mod c15;
 pub mod c16;
 pub mod c17;
 pub mod c18;
+
+/// Masks digit runs so that messages differing only in positions compare equal.
+pub fn c02_mask(s: &str) -> String {
+    let mut o = String::new();
+    let mut in_num = false;
+    for c in s.chars() {
+        if c.is_ascii_digit() {
+            if !in_num {
+                o.push('#');
+            }
+            in_num = true;
+        } else {
+            in_num = false;
+            o.push(c);
+        }
+    }
+    o
+}
